@@ -2,6 +2,7 @@ package c09
 
 import (
 	"fmt"
+	"sort"
 	"testing"
 	"time"
 
@@ -108,6 +109,21 @@ func TestRetargetRealChain(t *testing.T) {
 			prevHash = m.Header.BlockHash()
 			chain = append(chain, hdr{ts, bits})
 			desc += fmt.Sprintf("%d:%#x ", ts-ce.T0, bits)
+			if got, want := env.Chain.BestSnapshot().MedianTime.Unix(), refMedianOfTail(chain); got != want {
+				t.Fatalf("height %d: the chain reports a median time past of %d for its tip, the median of the last 11 timestamps is %d; history %+v", h, got, want, chain)
+			}
+		}
+		// the tip is taken back (no other branch exists): the median time past is that of the new tip
+		if len(chain) > 2 {
+			if err := env.Chain.InvalidateBlock(&prevHash); err != nil {
+				t.Fatalf("InvalidateBlock(tip): %v", err)
+			}
+			if got, want := env.Chain.BestSnapshot().MedianTime.Unix(), refMedianOfTail(chain[:len(chain)-1]); got != want {
+				t.Fatalf("after the tip at height %d was invalidated the chain reports a median time past of %d, the median of the last 11 timestamps of the new tip is %d; history %+v", len(chain)-1, got, want, chain)
+			}
+			if got, err := env.Chain.CalcNextRequiredDifficulty(time.Unix(chain[len(chain)-1].Time, 0)); err != nil || got != chain[len(chain)-1].Bits {
+				t.Fatalf("after the tip was invalidated CalcNextRequiredDifficulty(time of the removed block) = %#08x (%v), that block carried the reference bits %#08x", got, err, chain[len(chain)-1].Bits)
+			}
 		}
 		cl := "plain"
 		if minUsed {
@@ -121,3 +137,17 @@ func TestRetargetRealChain(t *testing.T) {
 }
 
 func compactOK(b uint32) bool { return refCompactToBig(b).Sign() > 0 }
+
+// refMedianOfTail: median of the last (up to) 11 timestamps, element n/2 of the sorted window.
+func refMedianOfTail(chain []hdr) int64 {
+	lo := len(chain) - 11
+	if lo < 0 {
+		lo = 0
+	}
+	ts := make([]int64, 0, 11)
+	for _, h := range chain[lo:] {
+		ts = append(ts, h.Time)
+	}
+	sort.Slice(ts, func(i, j int) bool { return ts[i] < ts[j] })
+	return ts[len(ts)/2]
+}
